@@ -348,7 +348,7 @@ CLAIMED["C17"] = {
             "the sparse row pairs each count with an enumerate() column taken before the zero filter, the zero filter drops exactly the zero counts, and the document frequency of the same column is incremented; "
             "each tf-idf entry is the count times the idf indexed by its own column, computed from (number of transformed documents, that column's document frequency) in this order; "
             "hand-written Clone impls and builder methods of the vectorisers carry every field. "
-            "Builder methods of the vectorisers store their arguments unchanged (no case folding, trimming or filtering of stop words or expressions); check_ref compiles the tokeniser expression that is configured now (the write of the compiled form is not skipped because one is already there). "
+            "The lower end of the document-frequency window is not a truncated (floor) conversion of the relative minimum into a count (it was: repaired - the window now compares relative frequencies). Builder methods of the vectorisers store their arguments unchanged (no case folding, trimming or filtering of stop words or expressions); check_ref compiles the tokeniser expression that is configured now (the write of the compiled form is not skipped because one is already there). "
             "Not decided: the recount itself - what the regex or tokenizer function matches, the float-to-count arithmetic of the frequency window, the three idf formulas, which entries a feature cap keeps (the sort key's reproducibility is decided under C20), the order of the vocabulary.",
     "design_ref": "DESIGN.md section 4, C17",
     "note": "Trusted: rustc resolution/typeck, the fact dump; HashSet iteration yields each element once; sprs append / iter_mut pair a value with its column index. Claimed late in the build (section 5 explains what changed the earlier not-applicable verdict).",
